@@ -78,8 +78,14 @@ Z3MAX = 0x2FFFF  # z3's character sort ends here; see alphabet_closure()
 USED = {}
 
 
+CHAR_HOOK = None  # when set: maps a code-point range set to a regex (used for byte-level encodings, see c14b)
+TABLE_EXTRA_FLAGS = 0  # extra flags for the runtime tables (re.ASCII: PCRE semantics without UCP)
+
+
 def ranges_to_re(rs):
     rs = list(rs)
+    if CHAR_HOOK is not None:
+        return CHAR_HOOK(rs)
     USED[tuple(rs)] = True
     rs = [(a, min(b, Z3MAX)) for a, b in rs if a <= Z3MAX]
     parts = [z3.Range(chr(a), chr(b)) if a != b else lit(chr(a)) for a, b in rs]
@@ -151,6 +157,7 @@ def save_cache():
 def table(src, flags=0, module=re):
     """code-point ranges of single characters fully matched by pattern `src` (runtime's verdict)."""
     _load_cache()
+    flags = int(flags) | TABLE_EXTRA_FLAGS
     k = (module.__name__, src, int(flags))
     if k not in _tab:
         c = module.compile(src, flags)
